@@ -860,6 +860,19 @@ func (schema *Schema) PermitsNull() bool {
 
 // IsEmpty tells whether schema is equivalent to the empty schema `{}`.
 func (schema *Schema) IsEmpty() bool {
+	return schema.isEmpty(nil)
+}
+
+// isEmpty is IsEmpty with the chain of schemas being examined: a schema reached again through
+// its own sub-schemas (a recursive schema without keywords of its own) adds no constraint.
+func (schema *Schema) isEmpty(stack []*Schema) bool {
+	for _, existing := range stack {
+		if existing == schema {
+			return true
+		}
+	}
+	stack = append(stack, schema)
+
 	if schema.Type != nil || schema.Format != "" || len(schema.Enum) != 0 ||
 		schema.UniqueItems || schema.ExclusiveMin || schema.ExclusiveMax ||
 		schema.Nullable || schema.ReadOnly || schema.WriteOnly || schema.AllowEmptyValue ||
@@ -874,17 +887,17 @@ func (schema *Schema) IsEmpty() bool {
 		// "not" constrains the value even when its sub-schema is empty: `not: {}` matches nothing
 		return false
 	}
-	if ap := schema.AdditionalProperties.Schema; ap != nil && ap.Value != nil && !ap.Value.IsEmpty() {
+	if ap := schema.AdditionalProperties.Schema; ap != nil && ap.Value != nil && !ap.Value.isEmpty(stack) {
 		return false
 	}
 	if apa := schema.AdditionalProperties.Has; apa != nil && !*apa {
 		return false
 	}
-	if items := schema.Items; items != nil && items.Value != nil && !items.Value.IsEmpty() {
+	if items := schema.Items; items != nil && items.Value != nil && !items.Value.isEmpty(stack) {
 		return false
 	}
 	for _, s := range schema.Properties {
-		if ss := s.Value; ss != nil && !ss.IsEmpty() {
+		if ss := s.Value; ss != nil && !ss.isEmpty(stack) {
 			return false
 		}
 	}
@@ -893,12 +906,12 @@ func (schema *Schema) IsEmpty() bool {
 		return false
 	}
 	for _, s := range schema.AnyOf {
-		if ss := s.Value; ss != nil && !ss.IsEmpty() {
+		if ss := s.Value; ss != nil && !ss.isEmpty(stack) {
 			return false
 		}
 	}
 	for _, s := range schema.AllOf {
-		if ss := s.Value; ss != nil && !ss.IsEmpty() {
+		if ss := s.Value; ss != nil && !ss.isEmpty(stack) {
 			return false
 		}
 	}
